@@ -529,11 +529,17 @@ for _sd in (False, True):
 from contracts.evals import _abstract_forecast
 
 
+def _gridded_family(fname):
+    from contracts.evals import directed_gridded, _GRIDDED_NAME
+    return directed_gridded(_GRIDDED_NAME[fname])
+
+
 def public_case(module, fname, resname, which, spatial, seeded):
     kernel = BRIER_TEST if which == 'brier' else BLL_TEST
     brier = which == 'brier'
 
     class Pub:
+        directed = _gridded_family(fname)
         qualname = 'csep.core.%s.%s' % (module, fname)
         case = 'abstract forecast / catalog, %s' % ('seeded' if seeded else 'injected random numbers')
         properties = ('C16', 'C06')
